@@ -82,5 +82,5 @@ Qed.
    the four ghost fields are valid *)
 Lemma trel_shift_tcb dO dP t : trel dO dP t (shift_tcb dO dP t).
 Proof.
-  unfold shift_tcb. eexists. split; [reflexivity|]. intros _. split; reflexivity.
+  unfold shift_tcb. eexists. split; [reflexivity|]. intros _. split; [split|]; reflexivity.
 Qed.
